@@ -195,6 +195,7 @@ OnNext(h, o, hd, x) ==
                           [] t.f = "pair" -> T("from_iter", 0, 0, "", 0, <<>>, <<x, x + 1>>, <<>>)
                           [] t.f = "err1" -> IF x = 1 THEN Leaf("error", 8) ELSE Leaf("just", x)
                           [] t.f = "probe2" -> Leaf("probe", 2)
+                          [] t.f = "probe2map" -> U("map", 0, "inc", Leaf("probe", 2))
                           [] OTHER -> Leaf("empty", 0)
                p == NewObserver(h, c, 1)
            IN Subscribe(p[1], inner, p[2])
